@@ -168,12 +168,12 @@ Classify(r, cc) ==
   IF r.e = "Scanner" THEN (IF r.predefined /\ ~r.consistent /\ ~r.err /\ ScDerivedOk(r.s) /\ ~ScIntFactsOk(r.s) THEN "C01-dbinconsistent" ELSE "new")
   \* C01-tofscannereq: two TOF-ready scanners / data descriptions over them compare equal although a non-TOF parameter differs
   ELSE IF r.e = "ScCmp" THEN (IF r.eq /\ r.ne = ~r.eq /\ r.a.tofReady /\ r.b.tofReady /\ r.a.maxT = r.b.maxT /\ DiffersOutsideTof(r.a, r.b) THEN "C01-tofscannereq" ELSE "new")
-  ELSE IF r.e = "Cmp" THEN (IF r.how = "other-scanner" /\ r.a.maxT > 0 /\ r.b.maxT > 0 /\ r.a.maxT = r.b.maxT /\ r.a.N # r.b.N THEN "C01-tofscannereq" ELSE "new")
+  ELSE IF r.e = "Cmp" THEN (IF r.how = "other-scanner" /\ r.a.maxT > 0 /\ r.b.maxT > 0 /\ r.a.maxT = r.b.maxT /\ r.a.N # r.b.N /\ r.eq /\ ~r.ne /\ r.ge /\ r.le THEN "C01-tofscannereq" ELSE "new")
   ELSE IF cc = NoCfg THEN "new"
   \* C01-subsetdup: a view subset with a repeated view is accepted
   ELSE IF r.e = "Sub" THEN (IF Len(r.views) >= 2 /\ (\A i \in 1..Len(r.views) : r.views[i] \in Views(cc)) /\ (\E i, j \in 1..Len(r.views) : i # j /\ r.views[i] = r.views[j]) THEN "C01-subsetdup" ELSE "new")
-  \* C01-eventofmash: pair counts of data with an even TOF mashing factor
-  ELSE IF r.e = "BN" /\ cc.tofMash > 0 /\ cc.tofMash % 2 = 0 /\ ~r.spatialOnly THEN "C01-eventofmash"
+  \* C01-eventofmash: data with an even TOF mashing factor m, central TOF bin: m timing positions counted instead of m - 1
+  ELSE IF r.e = "BN" /\ cc.tofMash > 0 /\ cc.tofMash % 2 = 0 /\ ~r.spatialOnly /\ r.tof = 0 /\ r.seg \in Segs(cc) /\ r.n = NumPairs(cc, BinOfRec(r), FALSE) THEN "C01-eventofmash"
   ELSE IF r.e \in {"RP", "PB"} /\ (\E s \in TruncSegs(cc) : Abs(r.r2 - r.r1) = Abs(SegMinRD(cc, s))) THEN "C01-truncseg"
   ELSE IF r.e \in {"RPS", "BP", "BD", "BN", "SubBP"} /\ r.seg \in TruncSegs(cc) THEN "C01-truncseg"
   ELSE "new"
